@@ -39,7 +39,7 @@ fn gen_program(r: &mut Rng, coinductive: bool) -> String {
                 let head = if k == 4 { "T" } else { "V<T>" };
                 let nw = 1 + r.below(2);
                 let mut w = vec![];
-                for _ in 0..nw { w.push(format!("{}: {}", r.pick(&["T", "T", "V<T>"]), r.pick(TRAITS))); }
+                for _ in 0..nw { let subj = if coinductive && k == 4 { "T" } else { *r.pick(&["T", "T", "V<T>"]) }; w.push(format!("{}: {}", subj, r.pick(TRAITS))); }
                 s += &format!("impl<T> {} for {} where {} {{ }} ", tr, head, w.join(", "));
             }
         }
@@ -69,7 +69,8 @@ fn explore(seed0: u64, count: u64, coinductive: bool) -> usize {
     for seed in seed0..seed0 + count {
         let mut r = Rng(seed.wrapping_mul(0x9E3779B97F4A7C15) ^ 0xABCDEF);
         let text = gen_program(&mut r, coinductive);
-        let db = ChalkDatabase::with(&text, SolverChoice::recursive_default());
+        std::fs::write("/var/tmp/dev/explore_prog.txt", format!("seed {}\n{}\n", seed, text)).unwrap();
+        let db = ChalkDatabase::with(&text, SolverChoice::slg_default());
         if db.checked_program().is_err() { continue; }
         let lowered: Vec<_> = gs.iter().filter_map(|g| lower(&db, g).map(|l| (g.clone(), l))).collect();
         let fresh = |c: fn() -> SolverChoice, l: &UCanonical<InEnvironment<Goal<ChalkIr>>>| {
@@ -88,13 +89,16 @@ fn explore(seed0: u64, count: u64, coinductive: bool) -> usize {
         }
         if fr.iter().chain(fs.iter()).any(|a| a == "PANIC") { continue; }
         // history: one used solver of each kind solving all goals in a seed-dependent order, twice
+        eprintln!("history seed {}", seed);
         for (label, choice, fresh_answers) in [("rec", SolverChoice::recursive_default as fn() -> SolverChoice, &fr), ("slg", SolverChoice::slg_default as fn() -> SolverChoice, &fs)] {
             let mut order: Vec<usize> = (0..lowered.len()).collect();
             for i in (1..order.len()).rev() { let j = r.below(i + 1); order.swap(i, j); }
+            eprintln!("ORDER[{}] seed {}: {:?}", label, seed, order.iter().map(|&k| lowered[k].0.as_str()).collect::<Vec<_>>());
             let mut used = choice().into_solver();
             for round in 0..2 {
                 for &i in &order {
-                    let a = show(&db, &used.solve(&db, &lowered[i].1));
+                    std::fs::write("/var/tmp/dev/explore_hist.txt", format!("seed {} [{}] round {} goal {}\n{}\n", seed, label, round, lowered[i].0, text)).unwrap();
+                    let a = match std::panic::catch_unwind(std::panic::AssertUnwindSafe(|| show(&db, &used.solve(&db, &lowered[i].1)))) { Ok(a) => a, Err(_) => { eprintln!("PANIC-in-history[{}] seed {} goal `{}`", label, seed, lowered[i].0); used = choice().into_solver(); continue; } };
                     if a != fresh_answers[i] {
                         findings += 1;
                         eprintln!("HISTORY[{}] seed {} round {} goal `{}`: used={} fresh={}\n    order {:?}\n    {}", label, seed, round, lowered[i].0, a, fresh_answers[i], order.iter().map(|&k| lowered[k].0.as_str()).collect::<Vec<_>>(), text);
@@ -107,5 +111,5 @@ fn explore(seed0: u64, count: u64, coinductive: bool) -> usize {
 }
 fn big<F: FnOnce() -> usize + Send + 'static>(f: F) -> usize { std::thread::Builder::new().stack_size(256 << 20).spawn(f).unwrap().join().unwrap() }
 fn n() -> u64 { std::env::var("N").ok().and_then(|s| s.parse().ok()).unwrap_or(300) }
-#[test] fn inductive() { assert_eq!(big(|| explore(0, n(), false)), 0); }
+#[test] fn inductive() { let s0: u64 = std::env::var("S0").ok().and_then(|s| s.parse().ok()).unwrap_or(0); assert_eq!(big(move || explore(s0, n(), false)), 0); }
 #[test] fn coinductive() { assert_eq!(big(|| explore(100000, n(), true)), 0); }
